@@ -16,7 +16,7 @@ CLAIMED = {
  "C08": dict(level="exploration", engine="E1 storage-sim (+E3 scheduler for async mode)",
    technique="deterministic simulation: seeded seek/read histories on eight reader kinds over simulated storage, checked operation by operation against a cursor reference model; tape shrinking + replay",
    text="Seeded search over files (option swarm) and histories of SeekToRow/ReadRows/ReadPage/ReadValues/OffsetIndex operations; after every operation the rows or values returned must be exactly model[cursor:cursor+m], io.EOF only at the end, progress within 8 calls. Sampling of histories and configurations.",
-   note="Seek targets within [0, NumRows]; forward-only readers are not given backward seeks; zero-length ReadValues is not exercised.",
+   note="Seek targets within [0, NumRows]; forward-only readers are not given backward seeks; zero-length ReadValues is not exercised. A fifth of the runs use ReadModeAsync under the E3 scheduler (library page goroutines park at every simulated ReadAt), plus a race-detector batch.",
    ref="DESIGN.md §4 C08"),
  "C09": dict(level="exploration", engine="E4 stream-sim",
    technique="deterministic simulation: k sorted inputs with drawn overlap patterns fed through simulated row sources (scripted chunking and EOF styles) or simulated storage, merged and consumed with varying batch sizes or written and read back; oracle over the recorded output: sorted, exact multiset union via hidden (input, sequence) payload, per-input order, dedupe count",
@@ -43,6 +43,11 @@ CLAIMED = {
    text="Four enumerations per seeded scenario: sink faults (byte offset x {err, torn, err-after-full, short-noerr} x {sticky, one-shot}), truncation (strict prefixes), source faults during open+read (ReadAt call index x {err, short+err, short+EOF} x cut position incl. page boundaries) and source faults during WriteRowGroup copy. Oracle: an error is returned, or nothing was lost (bytes identical / every row delivered); never a nil Close with missing bytes, never a clean EOF with missing or altered rows, never a panic.",
    note="Exactly one fault per execution; after the first reported error the object is abandoned. (len(p), io.EOF) is only legal at the end of the source and is covered as a benign configuration, not as a fault.",
    ref="DESIGN.md §4 C14"),
+ "C15": dict(level="exploration", engine="E3 scheduler (+race build)",
+   technique="deterministic simulation: real goroutines in one synctest bubble, parked at every simulated ReadAt/Write/pool call and between API calls, released one at a time by a seeded scheduler; results compared with the serial execution; race detector kept effective by hiding scheduler hand-offs",
+   text="Seeded search over five documented concurrency workloads (independent round trips sharing pools and caches; several goroutines on one File with lazily loaded indexes and bloom filters; one goroutine per ColumnWriter; concurrently filled row groups committed in order; asynchronous read mode) and over interleavings at seam granularity. Every task's digest must equal the serial execution's, with no panic, no deadlock and, in the race build, no race report.",
+   note="Interleavings at seam granularity only; the Go runtime decides select ties and which freshly spawned goroutine starts first, so event hashes of these runs are not compared on replay (decisions are recorded and replayed, the violation class must match). Hitting the decision cap is counted, not reported.",
+   ref="DESIGN.md §4 C15"),
  "C16": dict(level="exploration", engine="E1 storage-sim + H2 poison",
    technique="deterministic simulation: seeded read/seek/Reset/Close histories with unrelated writer/reader churn, on a deterministic pool that reuses released objects immediately (LIFO) and poisons released slice memory; held values re-compared with the reference model at every later point",
    text="Seeded search over files, reader kinds and histories; every typed value ever returned by Read is re-checked against the written value after each later operation and after Close + churn, Rows returned by ReadRows are re-checked right before the next call on the same reader, clones at the end, and everything handed to Write is compared with a pristine copy after Close.",
